@@ -73,7 +73,13 @@ impl RtpsWriterProxy {
     }
 
     pub fn push_data_frag(&mut self, submessage: DataFragSubmessage) {
-        if !self.frag_buffer.contains(&submessage) {
+        // A fragment is identified by its sample sequence number and its fragment number.
+        // The same fragment can be received more than once (duplicated datagram, repair, or
+        // a copy addressed to another reader of this participant) and must only be stored once.
+        if !self.frag_buffer.iter().any(|f| {
+            f.writer_sn() == submessage.writer_sn()
+                && f.fragment_starting_num() == submessage.fragment_starting_num()
+        }) {
             self.frag_buffer.push(submessage);
         }
     }
